@@ -12,7 +12,7 @@ use crate::util::*;
 use serde_json::{json, Value};
 
 pub fn meta(m: &mut PropMeta) {
-    m.rule = "model comments: all sequences of up to 3 (quick) / 4 (thorough) overview lines over the line alphabet {text, link at start / middle / end, blank, whitespace-only} x indentation {none, space, two spaces, tab, U+3000, NBSP} (mixed-width indentation included); block tags @param x / @returns / @returns x / @see T with inline message present / absent / link and 0..2 continuation lines, in all orders of up to 3 tags, after 0..1 overview lines; every comment form in every commentable position (struct, field, interface, operation, enum, enumerator, enumerator field, custom, alias); link and @see targets of every kind and scope distance (own member, sibling, member paths, enclosing / outer module, global '::', other file, parameter, primitive, module, missing) from every position; the malformed catalogue (unknown tag, '@' alone, missing '}', inline @param, block @link, stray symbol, text after @see, missing identifier), each alone and next to a healthy sibling comment. Oracle: reference reading of the raw lines written from the statement (common indentation in characters removed, line breaks kept, tags with identifiers in order, links bound by the outward scope search starting at the documented element, aliases not flattened): the whole observed AST including every comment equals the model; malformed => the comment is dropped with a MalformedDocComment warning; ill-fitting tags => IncorrectDocComment warning; unresolvable links => BrokenDocLink warning; never an Error; documented element and siblings still present. non-trivial = the comment has an indented line, a link or a tag; distinct = distinct rendered programs.";
+    m.rule = "model comments: all sequences of up to 3 (quick) / 4 (thorough) overview lines over the line alphabet {text, link at start / middle / end, blank, whitespace-only} x indentation {none, space, two spaces, tab, U+3000, NBSP} (mixed-width indentation included); block tags @param x / @returns / @returns x / @see T (x a parameter, a return member, a name that exists nowhere, a name of the OTHER list of the same operation, the placeholder name of an unnamed return value) with inline message present / absent / link and 0..2 continuation lines, in all orders of up to 3 tags, after 0..1 overview lines; every comment form in every commentable position (struct, field, interface, operation, enum, enumerator, enumerator field, custom, alias); link and @see targets of every kind and scope distance (own member, sibling, member paths, enclosing / outer module, global '::', other file, parameter, primitive, module, missing) from every position; the malformed catalogue (unknown tag, '@' alone, missing '}', inline @param, block @link, stray symbol, text after @see, missing identifier), each alone and next to a healthy sibling comment. Oracle: reference reading of the raw lines written from the statement (common indentation in characters removed, line breaks kept, tags with identifiers in order, links bound by the outward scope search starting at the documented element, aliases not flattened): the whole observed AST including every comment equals the model; malformed => the comment is dropped with a MalformedDocComment warning; ill-fitting tags => IncorrectDocComment warning; unresolvable links => BrokenDocLink warning; never an Error; documented element and siblings still present. non-trivial = the comment has an indented line, a link or a tag; distinct = distinct rendered programs.";
     m.explanation = "bounded-exhaustive comment-shape x position x link-target enumeration against a reference comment reader";
     m.quick_bound = "overview <= 3 lines; <= 3 block tags; 22 link targets x 9 positions x {link, see}";
     m.thorough_bound = "overview <= 4 lines; <= 3 block tags; same link product";
@@ -365,6 +365,14 @@ impl Tags {
         let three = [" @param a: pa", " @returns x: rx", " @see IS"];
         for perm in [[0, 1, 2], [0, 2, 1], [1, 0, 2], [1, 2, 0], [2, 0, 1], [2, 1, 0]] {
             forms.push(perm.iter().map(|i| three[*i].to_string()).collect());
+        }
+        // tags whose identifier names something of the operation - but of the OTHER list (a return member in @param,
+        // a parameter in @returns), the placeholder name of an unnamed return value, the operation itself
+        for h in ["@param x", "@param y", "@returns a", "@returns OS", "@param returnValue", "@returns returnValue", "@param dop", "@returns single"] {
+            forms.push(vec![format!(" {h}: text")]);
+            forms.push(vec![" @param a: fits everywhere".to_string(), format!(" {h}: text")]);
+            forms.push(vec![format!(" {h}"), " @param a: fits everywhere".to_string()]);
+            forms.push(vec![" Overview.".to_string(), format!(" {h}: text"), "   continued".to_string()]);
         }
         Tags { forms }
     }
